@@ -215,7 +215,7 @@ pub fn run(tier: &str, seed: u64) -> i32 {
     gen::drive(
         &mut report,
         14,
-        if tier == "thorough" { 400 } else { 40 },
+        if tier == "thorough" { 600 } else { 80 },
         || (gen::rule_wide(), prop::collection::vec(any::<u16>(), 10)),
         |(rule, picks): &(RuleSpec, Vec<u16>)| vec![make_case(rule, gen::wide_docs(rule, picks))],
         judge,
